@@ -75,7 +75,10 @@ def structure(trace):
     line itself, 'trl' = errors after close_st_loop (on the SE line)."""
     groups, total, outside = [], 0, 0
     cur_g = cur_t = None
+    cur_rec = None
     phase = None
+    outside_segs = [0]
+    structure.outside_segs = outside_segs
     for ln in trace:
         p = ln.split(',')
         k = p[0]
@@ -83,25 +86,48 @@ def structure(trace):
             cur_g = {'gs': seg_fields(p[1])[1], 'sets': [], 'errors': 0, 'closed': None, 'phase_errors': {'hdr': 0, 'trl': 0, 'g': 0}}
             groups.append(cur_g)
             cur_t, phase = None, 'gs'
+            cur_rec = None
         elif k == 'T' and cur_g is not None:
             cur_t = {'st': seg_fields(p[1])[1], 'closed': False, 'errors': 0, 'body': 0, 'st_err': 0, 'hdr': 0, 'trl': 0, 'seg_errors': [], 'ele_errors': []}
             cur_g['sets'].append(cur_t)
             phase = 'hdr'
+            cur_rec = None
         elif k == 'S':
+            if cur_t is None:
+                outside_segs[0] += 1          # a segment node created while no set is open (before a GS / after an IEA ...)
+            if cur_t is not None:
+                # one error-tree segment node per add_seg call (also for a segment met after the SE: the handler hangs it on the
+                # last set): id, position in the set, its segment and element errors
+                cur_rec = {'sid': seg_fields(p[2])[0], 'pos': p[3], 'seg_codes': [], 'eles': []}
+                cur_t.setdefault('segs', []).append(cur_rec)
             if phase in ('hdr', 'body'):
                 phase = 'body'
+        elif k == 'L':
+            if cur_rec is not None:
+                cur_rec['eles'].append({'pos': p[3], 'composite': p[4] == 'T', 'parent': p[5], 'errors': []})
         elif k == 'Z':
             phase = 'trl'
+            cur_rec = None
             if cur_t is not None:
                 cur_t['closed'] = True
         elif k == 'Y' and cur_g is not None:
             cur_g['closed'] = seg_fields(p[2])[1]
             cur_t, phase = None, 'ge'
+            cur_rec = None
         elif k in ('I', 'X'):
             cur_g = cur_t = None
+            cur_rec = None
             phase = None
         elif k in 'igtse':
             total += 1
+            if k == 's' and cur_rec is not None:
+                cur_rec['seg_codes'].append(p[1])
+            elif k == 'e' and cur_rec is not None and cur_rec['eles']:
+                cur_rec['eles'][-1]['errors'].append((p[1], unhex(p[3]) if len(p) > 3 else None))
+            elif k == 'e' and cur_rec is not None:
+                # an element error reported before any element of this segment was entered ("too many elements"): the handler files
+                # it under whatever element node was current — of an EARLIER segment
+                cur_rec.setdefault('loose', []).append(p[1])
             if k in ('t', 's', 'e') and cur_t is not None:
                 cur_t['errors'] += 1
                 if k == 't':
@@ -157,6 +183,22 @@ def run(ctx, report):
             ge = [i for i in range(j, len(segs)) if ids[i] == 'GE'][0]
             segs[ge] = walk_gen.set_elem(segs[ge], d, 2, first)
         cases.append(('envmut', 'duplicate group control number map=%s' % name, docgen.encode(segs, d, '')))
+    # one segment with BOTH a reader-level segment error that has no acknowledgement code (HL count / parent, LX sequence) and an
+    # element error: the element note still needs its segment note
+    for k in range(12 if thorough else 4):
+        name = rng.choice(['837.4010.X098.A1.xml', '270.4010.X092.A1.xml', '837.5010.X222.A1.xml', '271.4010.X092.A1.xml'])
+        try:
+            segs, d, _sel = confgen.document(rng, name, ('~', '*', ':'), n_st=1, p_seg=0.2, p_loop=0.5, max_segs=60)
+        except Exception:  # noqa
+            continue
+        hls = [i for i, x in enumerate(segs) if x.startswith('HL' + d[1])]
+        if len(hls) >= 2:
+            i = rng.choice(hls[1:])
+            parts = segs[i].split(d[1])
+            parts[1] = str(int(parts[1]) + 1)            # HL01 no longer matches the running count
+            parts[-1] = 'X'                              # HL04: not a valid code
+            segs = segs[:i] + [d[1].join(parts)] + segs[i + 1:]
+            cases.append(('bodymut', 'HL with a wrong count and a bad code map=%s' % name, docgen.encode(segs, d, '')))
     pipecorr.run(report, ctx, rng, cases, 1, None, force=lambda m: m[0] == 'A')
     for (kind, what, text) in cases:
         v, trace, ack = run_impl(text)
@@ -200,6 +242,59 @@ def run(ctx, report):
             report.fail('C05:set-not-located', '%d ST segments in the text, %d sets in the error tree: an unlocated set is counted as received '
                         'but neither named nor rejected' % (n_st_text, n_st_tree), inp)
             continue
+        # 2b. itemisation: within each set, the AK3/IK3 lines come in groups, one group per segment node that has a reportable
+        #     error (a segment error with a standard code, or any element error: then code 8), naming that segment and its position
+        #     in the set, each followed by one AK4/IK4 per element error with a standard code; no AK4/IK4 stands outside such a group
+        is999 = any(x[0] == 'IK5' for x in a.segs)
+        seg_codes_ok = set('12345678') | set(['SEG1']) | (set(['I4', 'I6', 'I7', 'I8', 'I9']) if is999 else set())     # SEG1 (trailing separators) is written as 8
+        ele_codes_ok = set(['1', '2', '3', '4', '5', '6', '7', '8', '9', '10']) | (set(['12', '13', 'I10', 'I11', 'I12', 'I13', 'I6', 'I9']) if is999 else set())
+        flat_sets = [t for g in groups for t in g['sets']]
+        ack_sets = [t for g in a.groups for t in g['sets']]
+        if len(flat_sets) == len(ack_sets):
+            for t, t_ack in zip(flat_sets, ack_sets):
+                want = []
+                for sg_ in t.get('segs', []):
+                    n4 = sum(1 for e_ in sg_['eles'] for (c_, _v) in e_['errors'] if c_ in ele_codes_ok)
+                    has_ele_err = any(e_['errors'] for e_ in sg_['eles']) or bool(sg_.get('loose'))
+                    if any(c_ in seg_codes_ok for c_ in sg_['seg_codes']) or has_ele_err:
+                        if want and want[-1][:2] == (sg_['sid'], sg_['pos']) and want[-1][2] == 0:
+                            want[-1] = (sg_['sid'], sg_['pos'], n4)        # two nodes for one source segment: their AK3 lines are adjacent
+                        else:
+                            want.append((sg_['sid'], sg_['pos'], n4))
+                got, cur_ = [], None
+                orphan = False
+                for x in t_ack['items']:
+                    if x[0] in ('AK3', 'IK3'):
+                        key_ = (x[1] if len(x) > 1 else None, x[2] if len(x) > 2 else None)
+                        if cur_ is not None and (cur_[0], cur_[1]) == key_ and cur_[2] == 0:
+                            continue               # another code of the same segment
+                        cur_ = [key_[0], key_[1], 0]
+                        got.append(cur_)
+                    elif x[0] in ('AK4', 'IK4'):
+                        if cur_ is None:
+                            orphan = True
+                        else:
+                            cur_[2] += 1
+                report.count('itemisation:sets')
+                if orphan:
+                    report.fail('C05:itemisation:element-note-without-segment-note', 'an AK4/IK4 stands before any AK3/IK3 of its set: its segment '
+                                'and position are lost', inp)
+                elif any(sg_.get('loose') for sg_ in t.get('segs', [])):
+                    # where the stray element error is printed is not determined by the segment it belongs to: compare the
+                    # segments named only
+                    report.count('itemisation:sets-with-stray-element-error')
+                    report.fail('C05:itemisation:stray-element-error', 'an element error was reported for a segment before any of its elements was '
+                                'entered (too many elements): it is itemised under the element node of an EARLIER segment, with that '
+                                'element\'s position and reference number', inp)
+                    if [x[:2] for x in got] != [list(w[:2]) for w in want] and [tuple(x[:2]) for x in got] != [w[:2] for w in want]:
+                        report.fail('C05:itemisation:segments-named:stray-element-error', 'segment notes name %r, errors were reported for %r' % (
+                            [tuple(x[:2]) for x in got][:8], [w[:2] for w in want][:8]), inp)
+                elif [tuple(x) for x in got] != want and not any(ch in (v_ or '') for sg_ in t.get('segs', []) for e_ in sg_['eles'] for (_c, v_) in e_['errors'] for ch in '~*:'):
+                    k_ = next((j for j in range(min(len(got), len(want))) if tuple(got[j]) != want[j]), min(len(got), len(want)))
+                    sit_ = ':document-has-segments-outside-every-set' if structure.outside_segs[0] else ''
+                    report.fail('C05:itemisation:%s%s' % ('missing' if len(got) < len(want) else ('extra' if len(got) > len(want) else 'differs'), sit_),
+                                'segment / element notes of a set: acknowledgement has %r, the errors reported were %r (first difference at %d)' % (
+                                    [tuple(x) for x in got][max(0, k_ - 1):k_ + 2], want[max(0, k_ - 1):k_ + 2], k_), inp)
         # 3. every group and set, in order, with control numbers
         names = [((g['ak1'][1:3] if g['ak1'] else None), [t['ak2'][1:3] for t in g['sets']]) for g in a.groups]
         want = [([g['gs'][0] if g['gs'] else None, g['gs'][5] if len(g['gs']) > 5 else None],
